@@ -82,6 +82,17 @@ def run(ctx):
             okshape = True
             for sub, verdict in (r.sub or []):
                 g = [(a, v) for a, v in sub.all_guards()]
+                if not g and isinstance(verdict, tuple) and verdict[0] == "expr":
+                    # the closure is a single boolean expression: keep == !is_action_key(k)  (or is_action_key(k) negated twice)
+                    t_ = verdict[1]
+                    neg = isinstance(t_, tuple) and t_[0] == "not"
+                    a_ = t_[1] if neg else t_
+                    if isinstance(a_, tuple) and a_[0] == "call" and a_[1] == MOD + "is_action_key" and a_[2] and isinstance(a_[2][0], tuple) and a_[2][0][0] == "retelem":
+                        tab[True] = "remove" if neg else "keep"
+                        tab[False] = "keep" if neg else "remove"
+                    else:
+                        okshape = False
+                    continue
                 act = [v for a, v in g if isinstance(a, tuple) and a[0] == "call" and a[1] == MOD + "is_action_key" and a[2] and isinstance(a[2][0], tuple) and a[2][0][0] == "retelem"]
                 if len(g) != 1 or len(act) != 1 or verdict not in ("keep", "remove"):
                     okshape = False
@@ -94,8 +105,11 @@ def run(ctx):
     A = ktx.Analysis(ctx, K)
     be = [t for t in A.txs if t.fn == SWEEP and t.kind == "BATCHEMIT"]
     feeds = {t.lists[0] for t in A.txs if t.fn == SWEEP and t.kind == "RETAIN->BATCH"}
-    ck.ob("C07-R2", SWEEP, "every-swept-key-is-emitted-as-Released", len({id(t.fx) for t in be}) >= 1 and all(t.guard_ok for t in be) and feeds == {"PT", "MO"},
-          detail="feeds %s, %d batch emissions" % (sorted(feeds), len(be)))
+    bulk = [t for t in A.txs if t.fn == SWEEP and t.kind == "BULKRELEASE"]
+    via_batch = len({id(t.fx) for t in be}) >= 1 and all(t.guard_ok for t in be) and feeds == {"PT", "MO"}
+    via_bulk = bool(bulk) and all(t.guard_ok for t in bulk) and all(set(t.lists) == {"PT", "MO"} for t in bulk)
+    ck.ob("C07-R2", SWEEP, "every-swept-key-is-emitted-as-Released", via_batch or via_bulk,
+          detail="feeds %s, %d batch emissions, %d bulk releases" % (sorted(feeds), len(be), len(bulk)))
     bad_tx = [t for t in A.txs if t.fn == SWEEP and not t.guard_ok]
     ck.ob("C07-R2", SWEEP, "sweep-obeys-the-transaction-discipline", not bad_tx and not [p for p in A.problems if p[0] == SWEEP])
     # is_action_key: false exactly on the eight modifiers
